@@ -5,6 +5,8 @@
   Mirrors
     * `Unit.Profile.__init__`          (pyroll/core/unit/unit.py)        → `profCopy`   (public explicit entries, SAME value references)
     * `BaseRollPass.Roll.__init__`     (pyroll/core/roll_pass/base.py)   → `rollCopy`
+    * `SymmetricRollPass.__init__`     (roll_pass/symmetric_roll_pass.py) → `mkPass` (`Unit.__init__` = `newUnit`, then
+      `self.roll` bound in the form READ from the source: `RollStore`, `Gen.C12.rollStore`)
     * `Unit.init_solve` / `DiskElementUnit.init_solve` / `BaseRollPass.init_solve` → `initSolve`
       (what `init_solve` does with an out-profile left by an earlier solve is READ from the source: `Reuse`,
        `Gen.C12.outReuse` → `ensureOut`)
@@ -171,6 +173,34 @@ def profCopy (h : H) (k : Kind) (unit : Option Nat) (tpl : Nat) : Obj :=
 is NOT (empty, the roll's own) -/
 def rollCopy (h : H) (pass : Nat) (tpl : Nat) : Obj :=
   { kind := .passRoll, fields := pubFields h tpl, weak := some pass }
+
+/-! ### construction of a unit / of a roll pass -/
+
+/-- `Unit.__init__`: the unit and its (empty) sub-unit list -/
+def newUnit (s : S) (ob : Obj) : S × Nat :=
+  let (s1, u) := s.alloc ob
+  let (s2, l) := s1.alloc { kind := .subList, weak := some u }
+  (s2.write u fSUB l, u)
+
+/-- how `SymmetricRollPass.__init__(self, roll, …)` binds `self.roll` (READ from the source: `Gen.C12.rollStore`) -/
+inductive RollStore where
+  /-- `self.roll = self.Roll(roll, self)`: a pass roll of its own, made from WHATEVER roll object is handed in (a
+  plain `Roll` template, or the roll of another pass) -/
+  | copy
+  /-- `self.roll = roll`: the object handed in is kept -/
+  | adopt
+  deriving DecidableEq, Repr
+
+/-- `TwoRollPass(roll=t, rotation=…, disk_element_count=…)` (`SymmetricRollPass.__init__`): `Unit.__init__`, then
+`self.roll` is bound in the form read from the source.  `t` is ANY object handed in as `roll`: a roll template, or the
+pass roll of another pass (`RollPass(roll=other_pass.roll, …)`) -/
+def mkPass (rs : RollStore) (s : S) (rot : Bool) (disks : Nat) (t : Nat) : S × Nat :=
+  let (s1, u) := newUnit s { kind := .unit, tag := 1, rot := rot, disks := disks }
+  match rs with
+  | .copy =>
+    let (s2, r) := s1.alloc (rollCopy s1.h u t)
+    (s2.write u fROLL r, u)
+  | .adopt => (s1.write u fROLL t, u)
 
 /-! ### classifier producers: a small language of set-valued statements (programs are generated from the source) -/
 
